@@ -104,6 +104,12 @@ def rule_ab(ctx: Context, R: Reporter, fin: FuncInfo, run: FuncInfo, wfn: FuncIn
                 raise AnalysisError("C05.a: finalising call with unbound arguments")
             bs = b.sym
             problems = []
+            # a value of which nothing is known (no temperature, no kind: it came out of code the interpreter does not
+            # follow -- an object attribute, a memo entry) is not evidence of a mismatch
+            opaque = [nm_ for (nm_, v_) in (("weights", w), ("ESS", e)) if not all_at(v_) and not all_kinds(v_)]
+            if opaque:
+                raise AnalysisError(f"C05.a: the {' / '.join(opaque)} handed to `{unparse(ev.call)[:50]}` cannot be traced to an evaluation of the weight function "
+                                    f"(values read from objects or containers the path interpreter does not follow)")
             if all_at(w) != frozenset({bs}) or "logz" in all_kinds(w):
                 problems.append(f"weights were computed at {set(all_at(w)) or 'no temperature'}")
             if all_at(e) != frozenset({bs}):
